@@ -580,6 +580,39 @@ def aged_half_open_cases(measured):
         yield ('aged:%d' % age, v, '%s:held=%d' % (kind, held))
 
 
+def local_event_between_cases(measured):
+    """between the half-open IKE_SAs piling up and the next request without cookie the responder's own kernel reports something
+    for that very peer (an ACQUIRE, an EXPIRE of nothing it knows), or its operator asks for the status: none of that makes a
+    half-open IKE_SA go away, so the request is still answered with a cookie only"""
+    import ipaddress
+    for what in ('acquire-for-that-peer', 'expire-unknown-spi', 'status-query'):
+        w, req = fresh()
+        fill_half_open(w, req, measured)
+        b = w.endpoints['B']
+        before = len(b.controller.ike_sas)
+        if what == 'acquire-for-that-peer':
+            w.step(('acquire', 'B', 0, 0))
+        elif what == 'expire-unknown-spi':
+            x, y = ipaddress.ip_address(SRC['b']), ipaddress.ip_address(SRC['a'])
+            from harness import kernel as K
+            w.step(('kevent', 'B', K.enc_expire_spi(b'\xde\xad\xbe\xef', x, y, 50, True)))
+        else:
+            w.step(('status', 'B'))
+        w.net[:] = []
+        half = sum(1 for x_ in b.controller.ike_sas if not x_.is_initiator and int(x_.state) < int(State.ESTABLISHED))
+        kind, cookie, dh, grew, _ = probe(w, req)
+        v = []
+        if not b.alive:
+            v.append(('between:daemon-died', 'B died: %r' % (b.dead_reason[:2],)))
+        elif half < measured:
+            v.append(('between:half-open-ike-sa-removed', 'a local event (%s) made %d of the %d half-open responder IKE_SAs go away' % (
+                what, measured - half, measured)))
+        elif kind != 'cookie':
+            v.append(('between:no-cookie-demanded', 'with %d half-open IKE_SAs, after a local event (%s), a request without cookie is '
+                      'answered with %s' % (half, what, kind)))
+        yield ('between:%s' % what, v, '%s:half-open=%d' % (kind, half))
+
+
 def replay(path):
     doc = jdec(json.load(open(path)))
     want = doc['label']
@@ -640,6 +673,7 @@ def main():
             runs += [('v4:%s' % l, v, o) for l, v, o in same_pass_cases(min(meas.values()))]
             PRE['established'], PRE['initiated'] = False, 0
             runs += [('v4:%s' % l, v, o) for l, v, o in aged_half_open_cases(min(meas.values()))]
+            runs += [('v4:%s' % l, v, o) for l, v, o in local_event_between_cases(min(meas.values()))]
         runs += [('v%d:%s' % (fam, l), v, o) for l, v, o in initiator_cases()]
         runs += [('v%d:%s' % (fam, l), v, o) for l, v, o in foreign_responder_cases()]
     FAMILY['v'] = 4
